@@ -767,6 +767,9 @@ def obligations(tier, seed):
                 for op in sel:
                     out.append({"family": "hist", "layer": "state", "universe": uni, "weighted": weighted,
                                 "ops": base + [op]})
+        from verif.props.C02 import detours
+
+        out.extend(detours(alpha, uni, weighted, rng, 14 if tier == "quick" else 80))
         # (iii) seeded longer histories
         n_long = 16 if tier == "quick" else 400
         for _ in range(n_long):
